@@ -152,6 +152,9 @@ RUN_MODELLED = [
 RUN_BINARY = [
     "binary mode (C10, sample for C01): SIGKILL of the real process; what differs from the in-process runs is observed, not modelled: an invocation with a failing command prints no JSON document (exit status 1, 'Command … exited with status n'), so for those invocations the skipped tasks are inferred (in the closure, not in the side-effect log) and judged like reported skips; the run order of a killed invocation is read from the --debug log on stderr; torn writes are the n-byte prefixes written by the verif hook of the binary itself (SPOK_VERIF_TEAR), not a write(2) interrupted by the kernel",
 ]
+RUN_JSON = [
+    "byte level of the cache file (lean/Spok/Json, engine json): encoding/json's scanner, string encoder, unquote and the map[string]string decoding are transliterated by hand and compared with the real cache.Dump/cache.Load; UTF-8 re-encoding of a valid rune is taken to give back its bytes",
+]
 RUN_ASSUME = [
     "one spok process per project at a time; commands do not modify their own dependencies; the spokfile is not edited within a history",
     "a Runner error (as opposed to a non-zero exit status) is not part of the modelled universe",
@@ -160,6 +163,6 @@ RUN_ASSUME = [
 PROPS = {
     "C01": {"engine": "run", "modelled": RUN_MODELLED + RUN_BINARY, "assumptions": RUN_ASSUME, "extra_props": ["C01Sha"]},
     "C02": {"engine": "run", "modelled": RUN_MODELLED, "assumptions": RUN_ASSUME},
-    "C10": {"engine": "run", "modelled": RUN_MODELLED + RUN_BINARY, "assumptions": RUN_ASSUME},
+    "C10": {"engine": "run", "modelled": RUN_MODELLED + RUN_BINARY + RUN_JSON, "assumptions": RUN_ASSUME, "extra_engines": ["json"]},
     "C14": {"engine": "run", "modelled": RUN_MODELLED, "assumptions": RUN_ASSUME},
 }
